@@ -106,6 +106,7 @@ static std::string dirname_of(const std::string &p) {
 static OpenDesc &new_desc(int kind) {
     int fd = G.next_fd;
     while (G.fds.count(fd)) fd++;
+    if (G.w.tty_state == 1 && !G.fds.count(0)) fd = 0;   // stdin is closed in this process: the lowest free descriptor is 0
     OpenDesc &d = G.fds[fd];
     d.fd = fd; d.id = G.next_descid++; d.kind = kind; d.opi = t_op ? t_op->opi : -1; d.thr = t_thr;
     return d;
@@ -477,7 +478,9 @@ extern char **environ;
 Snap take_snapshot() {
     SimScope sc;
     Snap s;
-    for (auto &p : G.fds) if (p.first > 2) s.sim_fds.push_back(p.first);
+    // every open simulated descriptor, the standard ones included (a process may run with 0 closed, and the library may open or close them);
+    // 0-2 also by the identity of what they refer to
+    for (auto &p : G.fds) { s.sim_fds.push_back(p.first); if (p.first <= 2) s.sim_fds.push_back(1000000 + p.second.id); }
     // real descriptors, via raw syscalls so that nothing is intercepted or allocated
     long dfd = raw_syscall6(SYS_openat, AT_FDCWD, (long)"/proc/self/fd", O_RDONLY | O_DIRECTORY, 0, 0, 0);
     if (dfd >= 0) {
@@ -724,7 +727,7 @@ std::string host_strftime(const World &w, const std::string &fmt, int64_t t) { r
 // ------------------------------------------------------------------ plan interpreter
 static void streams_begin() {
     G.fds.clear(); g_stdio_bufs.clear();
-    OpenDesc d0; d0.fd = 0; d0.kind = 0; d0.path = "<stdin>"; G.fds[0] = d0;
+    if (G.w.tty_state != 1) { OpenDesc d0; d0.fd = 0; d0.kind = 0; d0.path = "<stdin>"; G.fds[0] = d0; }   // tty_state 1: the process runs with descriptor 0 closed
     OpenDesc d1; d1.fd = 1; d1.kind = 2; d1.path = "<stdout>"; d1.flags = O_WRONLY; d1.id = G.next_descid++; G.fds[1] = d1;
     OpenDesc d2; d2.fd = 2; d2.kind = 3; d2.path = "<stderr>"; d2.flags = O_WRONLY; d2.id = G.next_descid++; G.fds[2] = d2;
     g_sim_stdout = cookie_stream(1, "w", G.w.stdout_kind == 0 ? _IOLBF : _IOFBF, G.w.stdout_kind == 0 ? 1024 : 4096);
